@@ -12,7 +12,7 @@ CLAUSES = {
     "pending-": (lambda e: e[0] == "add" and e[1].endswith("work::BuildStates.total_pending") and e[3].endswith("work::BuildStates.total_pending") and e[2] == -1, lambda p, n, ph: int(n in ("Done", "Failed"))),
     "running-": (lambda e: e[0] == "add" and e[1].endswith("work::PoolState.running") and e[3] == e[1] and e[2] == -1, lambda p, n, ph: int(p == "Running")),
     "running+": (lambda e: e[0] == "add" and e[1].endswith("work::PoolState.running") and e[3] == e[1] and e[2] == 1, lambda p, n, ph: int(n == "Running")),
-    "ready-push": (lambda e: e[0] == "push_back" and e[1].endswith("work::BuildStates.ready"), lambda p, n, ph: int(n == "Ready")),
+    "ready-push": (lambda e: e[0] in ("push_back", "push_front") and e[1].endswith("work::BuildStates.ready"), lambda p, n, ph: int(n == "Ready")),
     "counts-prev": (lambda e: e[0] == "counts.add" and e[2] == -1, lambda p, n, ph: int(p != "Unknown" and not ph)),
     "counts-new": (lambda e: e[0] == "counts.add" and e[2] == 1, lambda p, n, ph: int(not ph)),
 }
